@@ -244,12 +244,22 @@ struct Acc<'a> {
     known: &'a KnownFile,
     prop: &'a str,
     failed: bool,
+    /// scheduler steps spent re-executing candidates while shrinking / minimising a failing case
+    shrink_steps: u64,
 }
+
+/// Shrinking is bounded by work, not by time: once the re-executions of candidates have cost this
+/// many scheduler steps the case is reported as small as it has got (stuck executions run to the
+/// livelock threshold or the step budget, so a thousand candidates can cost minutes).
+const SHRINK_STEP_BUDGET: u64 = 25_000_000;
 
 impl<'a> Acc<'a> {
     /// Evaluates one case.  Returns the findings that are *not* covered by a known finding.
     fn eval(&mut self, part: &Part, sc: &Scenario, count: bool) -> (Vec<Finding>, Execution) {
         let ex = run_scenario(sc);
+        if !count {
+            self.shrink_steps += ex.outcome.steps;
+        }
         let mut info = CaseInfo::default();
         let findings = (part.oracle)(sc, &ex, &mut info);
         if let Ok(want) = std::env::var("MQV_DUMP_VERDICT") {
@@ -337,7 +347,8 @@ fn minimize(acc: &mut Acc, part: &Part, sc: Scenario) -> Scenario {
     let mut best = sc;
     let mut budget = 1500usize;
     let still_fails = |acc: &mut Acc, cand: &Scenario, budget: &mut usize| -> bool {
-        if *budget == 0 {
+        if *budget == 0 || acc.shrink_steps > 2 * SHRINK_STEP_BUDGET {
+            *budget = 0;
             return false;
         }
         *budget -= 1;
@@ -420,6 +431,7 @@ pub fn run_prop(
         known,
         prop: def.id,
         failed: false,
+        shrink_steps: 0,
     };
     for part in &def.parts {
         if let Some(p) = only_part {
@@ -531,6 +543,10 @@ pub fn run_prop(
                 let result = runner.run(&strat, |sc| {
                     let mut a = cell.borrow_mut();
                     let count = !a.failed;
+                    if a.failed && a.shrink_steps > SHRINK_STEP_BUDGET {
+                        // out of shrinking budget: every further candidate counts as passing
+                        return Ok(());
+                    }
                     let (unknown, _ex) = a.eval(part, &sc, count);
                     if unknown.is_empty() {
                         Ok(())
@@ -592,6 +608,7 @@ pub fn replay(def: &PropDef, v: &ViolationReport, known: &KnownFile) -> (Vec<Fin
         known,
         prop: def.id,
         failed: false,
+        shrink_steps: 0,
     };
     acc.failed = false;
     let (f, ex) = acc.eval(part, &v.scenario, true);
@@ -629,6 +646,7 @@ pub fn fuzz_one(def: &PropDef, part_name: &str, sc: &Scenario, known: &KnownFile
         known: &widened,
         prop: def.id,
         failed: false,
+        shrink_steps: 0,
     };
     let (unknown, ex) = acc.eval(part, sc, false);
     // a mutated scenario that contains the trigger of a known finding (a second stream on a
